@@ -14,10 +14,11 @@ Record stream := {
   det : bool;            (* isDetaching *)
   blk : bool;            (* owner is inside blockGet's wait (stream is in the blocked list) *)
   popped : bool;         (* between the pop from the charged list and attach() *)
-  pend : bool            (* makeCharged is about to be called in the current critical section (put / tryDetach) *)
+  pend : bool;           (* makeCharged is about to be called in the current critical section (put / tryDetach) *)
+  own : bool             (* a processor is inside dischargeStream for this stream (between attach and leave) *)
 }.
 Definition stream0 : stream :=
-  {| q := []; cur := 0; away := 0; scommit := 0; att := false; det := false; blk := false; popped := false; pend := false |}.
+  {| q := []; cur := 0; away := 0; scommit := 0; att := false; det := false; blk := false; popped := false; pend := false; own := false |}.
 
 Record sst := {
   streams : list stream;      (* index = stream id of the trace *)
@@ -57,12 +58,22 @@ Definition crash (t : sst) : sst :=
   {| streams := streams t; charged := charged t; scrashed := true; taken := taken t; timeouts := timeouts t |}.
 
 Definition mk (st : stream) q' cur' away' com' att' det' blk' pop' : stream :=
-  {| q := q'; cur := cur'; away := away'; scommit := com'; att := att'; det := det'; blk := blk'; popped := pop'; pend := pend st |}.
+  {| q := q'; cur := cur'; away := away'; scommit := com'; att := att'; det := det'; blk := blk'; popped := pop'; pend := pend st; own := own st |}.
 Definition set_pend (st : stream) (b : bool) : stream :=
-  {| q := q st; cur := cur st; away := away st; scommit := scommit st; att := att st; det := det st; blk := blk st; popped := popped st; pend := b |}.
+  {| q := q st; cur := cur st; away := away st; scommit := scommit st; att := att st; det := det st; blk := blk st; popped := popped st; pend := b; own := own st |}.
+Definition set_own (st : stream) (b : bool) : stream :=
+  {| q := q st; cur := cur st; away := away st; scommit := scommit st; att := att st; det := det st; blk := blk st; popped := popped st; pend := pend st; own := b |}.
+
+(* the stream id of a label.  Ids are indices (>= 0): a negative id would alias stream 0 through
+   [Z.to_nat] while [charged] / [taken] record the id itself, so such labels are not enabled. *)
+Definition label_stream (l : slabel) : Z :=
+  match l with
+  | SPut s _ _ | SCharge s | SPop s | SAttach s | SGet s _ _ | SLeave s | SDetach s _ | SCommit s _ | SBlock s | STimeout s _ => s
+  end.
 
 Definition sstep (t : sst) (l : slabel) : option sst :=
   if scrashed t then None else
+  if label_stream l <? 0 then None else
   match l with
   | SPut s seq kind =>
       if s <? 0 then None else
@@ -92,11 +103,12 @@ Definition sstep (t : sst) (l : slabel) : option sst :=
       if popped st then
         (* Panicf: already attached / detaching / empty *)
         if att st || det st || match q st with [] => true | _ => false end then Some (crash t)
-        else Some (upd_stream t s (mk st (q st) (cur st) (away st) (scommit st) true false false false))
+        else Some (upd_stream t s (set_own (mk st (q st) (cur st) (away st) (scommit st) true false false false) true))
       else None
   | SGet s seq kind =>
       let st := get_s (streams t) (Z.to_nat s) in
-      if negb (att st) then None else
+      (* SeqID is a uint64: without [0 <= seq] a regular get of a negative seq would match the time-out marker and vice versa *)
+      if negb (att st) || negb (own st) || (seq <? 0) then None else
       if det st then Some (crash t) else        (* Panicf "why get while detaching?" *)
       match q st with
       | x :: r =>
@@ -115,9 +127,9 @@ Definition sstep (t : sst) (l : slabel) : option sst :=
   | SLeave s =>
       let st := get_s (streams t) (Z.to_nat s) in
       match q st with
-      | [] => if att st then
+      | [] => if att st && own st then
                 if det st then Some (crash t)
-                else Some (upd_stream t s (mk st [] (cur st) (away st) (scommit st) true true false (popped st)))
+                else Some (upd_stream t s (set_own (mk st [] (cur st) (away st) (scommit st) true true false (popped st)) false))
               else None
       | _ :: _ => None
       end
@@ -137,7 +149,7 @@ Definition sstep (t : sst) (l : slabel) : option sst :=
       let st := get_s (streams t) (Z.to_nat s) in
       match q st with
       | [] => (* the processor blocks only after the event it took last was finalized (Discard / Collapse / Hold) *)
-              if att st && negb (det st) && (away st =? scommit st)
+              if att st && own st && negb (det st) && (away st =? scommit st)
               then Some (upd_stream t s (mk st [] (cur st) (away st) (scommit st) true false true (popped st)))
               else None
       | _ :: _ => None
